@@ -6,7 +6,7 @@ from collections import Counter, defaultdict
 
 from .core import RuleResult, CheckFailure, VERIF
 from .kernel import norm, op_local, op_place, place_fields
-from .roles import get_roles, DEQUE
+from .roles import get_roles, DEQUE, wrapper_kind
 from .symex import fmt, subterms, PathLimit, NONE
 
 TABLES = os.path.join(os.path.dirname(os.path.abspath(__file__)), 'tables')
@@ -557,7 +557,7 @@ def rule_ptr_guarded_call(ctx):
     for c in callers:
         b = prog.bodies[c]
         try:
-            sx = ctx.symex(inline_depth=1, loop_visits=2, inline_pred=lambda n_, bb, d: True if n_.endswith(('_from_deque', 'unlink_node_wo', 'unlink_node_ao')) and d < 2 else False)
+            sx = ctx.symex(inline_depth=1, loop_visits=2, inline_pred=lambda n_, bb, d: True if wrapper_kind(ctx, n_) and d < 2 else False)
             paths = sx.run(c)
         except PathLimit:
             raise CheckFailure('PTR-guarded-call: path limit in %s' % c)
@@ -569,7 +569,7 @@ def rule_ptr_guarded_call(ctx):
                     deq, node = e[2][0], e[2][1]
                     guarded = False
                     for t, v in p.conds:
-                        if v is True and isinstance(t, tuple) and t[0] == 'call' and str(t[1]).endswith('Deque::contains'):
+                        if v is True and isinstance(t, tuple) and t[0] == 'call' and t[1] in R.member:
                             d2, n2 = t[2][0], t[2][1]
                             same_node = (n2 == node) or any(x == n2 for x in subterms(node)) or any(x == node for x in subterms(n2)) or _same_ptr(n2, node)
                             if d2 == deq and same_node:
@@ -666,7 +666,7 @@ def rule_auth_node_free(ctx):
                 if not ok:
                     r.violate(fn, 'leak-primitive', bad.split('::')[-1], '%s used in %s: ownership of a key/value/node escapes the borrow checker' % (bad, fn), where=ctx.where(fn))
     # non-dropping unlink: only from unlink_and_drop
-    unl = [n for n in R.unlink if n.endswith('Deque::unlink')]
+    unl = sorted(R.unlink_node)
     for u in unl:
         for c in sorted(callers.get(u, ())):
             ok = c in R.free
@@ -675,7 +675,7 @@ def rule_auth_node_free(ctx):
                 r.violate(c, 'unlink-without-drop', 'Deque::unlink', '%s unlinks a node without freeing it (the node and the key clone it owns leak)' % c, where=ctx.where(c),
                           expected='unlink_and_drop')
     # pop role callers
-    pops = [n for n in prog.bodies if n.endswith('Deque::pop_front')]
+    pops = sorted(R.pop)
     for pf in pops:
         for c in sorted(callers.get(pf, ())):
             if c.startswith(('common::deque::', '<common::deque::', '<<common::deque::')):
